@@ -1068,6 +1068,16 @@ impl<'a> G<'a> {
             w.lexeme("version", self.r.pick_str(&["OPENQASM 3.0", "OPENQASM 3", "OPENQASM 3.1"]));
             w.push(";\n");
         }
+        if is_main && self.sw.stdgates && self.r.chance(1, 10) {
+            // a user gate named like one of the standard library, with another signature, defined
+            // before anything else: it keeps its binding whatever is included later (R6)
+            meta.stmt_starts.push(w.s.len());
+            let (name, np, nq) = crate::model::STDGATES[self.r.below(crate::model::STDGATES.len())];
+            let params: Vec<String> = (0..np + 1).map(|k| format!("a{}", k)).collect();
+            let qubits: Vec<String> = (0..nq).map(|k| format!("q{}", k)).collect();
+            w.push(&format!("gate {}({}) {} {{ }}\n", name, params.join(", "), qubits.join(", ")));
+            meta.graph_stmts += 1;
+        }
         if !is_main && !self.cycle && self.r.chance(1, 14) {
             // a degenerate included file: empty, blank, or comments only
             let t = self.r.pick_str(&["", "\n", "   ", "// nothing here\n", "// no newline at the end"]);
